@@ -18,3 +18,19 @@ def smoothing_ok(x, y, s, result):
     target = len(y) * float(y.std()) ** 2 if s is None else s
     dev = float(((np.asarray(result(x), dtype=float) - y) ** 2).sum())
     return dev <= target * 1.001 + 1e-9 * (1 + float((y ** 2).sum()))
+
+
+def affine_reproduced(x, y, new_x, method, result):
+    """C13: every method except 'constant' reproduces affine data (to rounding) - inside the data range for all three, and for
+    the two spline methods (which continue their end pieces) also beyond it; 'linear' (numpy.interp) holds the end values there"""
+    if method not in ('linear', 'cubic', 'spline'):
+        return True
+    x, y, new_x = (np.asarray(v, dtype=float) for v in (x, y, new_x))
+    a = (y[-1] - y[0]) / (x[-1] - x[0])
+    b = y[0] - a * x[0]
+    scale = 1.0 + float(np.max(np.abs(y))) + abs(a) * float(max(abs(new_x[0] - x[0]), abs(new_x[-1] - x[0]), x[-1] - x[0]))
+    if not np.allclose(y, a * x + b, rtol=0, atol=1e-12 * scale):
+        return True                       # not affine data: nothing to check
+    sel = ((new_x >= x[0]) & (new_x <= x[-1])) if method == 'linear' else np.ones(len(new_x), dtype=bool)
+    r = np.asarray(result, dtype=float)
+    return bool(np.all(np.abs(r[sel] - (a * new_x + b)[sel]) <= 1e-6 * scale))
